@@ -17,15 +17,17 @@ class ChainFinder(object):
         )
 
     def load_nodes(self, nodes: Iterable[tuple[Any, Any]]) -> None:
-        # register everything
-        new_hashes: set[Any] = set()
+        # read everything first: if the iterable fails part-way, nothing must
+        # be registered (a node that is registered but never melded into the
+        # trees would be skipped as "known" on every later delivery)
+        new_nodes: dict[Any, Any] = {}
         for h, parent in nodes:
-            if h in self.parent_lookup:
+            if h in self.parent_lookup or h in new_nodes:
                 continue
-            self.parent_lookup[h] = parent
-            new_hashes.add(h)
-        if new_hashes:
-            self.meld_new_hashes(new_hashes)
+            new_nodes[h] = parent
+        if new_nodes:
+            self.parent_lookup.update(new_nodes)
+            self.meld_new_hashes(set(new_nodes))
 
     def meld_new_hashes(self, new_hashes: set[Any]) -> None:
         # make a list
